@@ -18,6 +18,7 @@ import PyomaVerif.Ops.C06
 import PyomaVerif.Ops.C07
 import PyomaVerif.Ops.C04
 import PyomaVerif.Ops.C13
+import PyomaVerif.Ops.C13M
 import PyomaVerif.Ops.C05
 import PyomaVerif.Ops.C07All
 import PyomaVerif.Ops.C06All
@@ -45,6 +46,7 @@ def allOps : List (String × (Json → Except String Json)) :=
   ++ PV.Ops.BuildHank.ops
   ++ PV.Ops.C14Own.ops
   ++ PV.Ops.C07Rect.ops
+  ++ PV.Ops.C13M.ops
 
 def handle (line : String) : String :=
   match Json.parse line with
